@@ -69,7 +69,11 @@ namespace ss
             p.set("main_uses", r.chance(3, 4) ? 1 : 0);
             p.set("exit_user", r.chance(1, 3) ? 1 : 0); // a static object's destructor uses a temporary_allocator
             if (r.chance(1, 6))
+            {
                 p.set("malloc_fail", (long long)r.range(1, 6));
+                if (r.chance(1, 2))
+                    p.set("user_oom", 1); // out_of_memory handler that throws its own exception type
+            }
             // task 0 is the main thread: it starts and joins the workers at drawn points
             std::vector<int> started, joined;
             std::size_t      nmain = thorough ? r.range(6, 30) : r.range(4, 16);
